@@ -5,7 +5,8 @@ package main
 // ops: escape (hook vs model), dn (names.FromRDNSequence), rawdn (names.FromRawDN),
 // cert (Subject / Issuer attributes of file.Inspect on one certificate built around
 // hand-encoded names, presented as DER / PEM / PEM after text / base64), chain (the same for
-// every certificate of a PEM bundle or a Java keystore).  Certificate requests are not an op:
+// every certificate of a PEM bundle or a Java keystore), seq (a sequence of names rendered one
+// after the other in this process by FromRDNSequence or FromRawDN).  Certificate requests are not an op:
 // file.Inspect never calls parseCSR (and parsePEMBlock has no case for CERTIFICATE REQUEST).
 // Input formats are described in coq/Run/C15.v.
 
@@ -1673,6 +1674,297 @@ func c15MBEscStrings() []string {
 	return out
 }
 
+// ---------- state between renderings: colliding attributes, sequences of names ----------
+// A renderer that remembers anything between two attributes, two names or two certificates
+// (a cache of attribute texts, a memo of the last name, a reused buffer) goes wrong when two
+// DIFFERENT (type, value) pairs meet under its key.  c15Collisions lists pairs that collide
+// under the cheap keys such a cache might use; each pair is then placed in one RDN, in two
+// RDNs, as subject and issuer, in consecutive dn / rawdn cases, in a chain and in the seq op
+// (a sequence of names rendered one after the other, each judged against its own RDNs).
+
+type c15Col struct {
+	key  string // the key family under which a and b collide (histogram tag)
+	a, b c15A
+}
+
+func c15Dotted(o []int) string {
+	p := make([]string, len(o))
+	for i, a := range o {
+		p[i] = fmt.Sprint(a)
+	}
+	return strings.Join(p, ".")
+}
+
+func c15ValidOID(o []int) bool {
+	if len(o) < 2 || o[0] < 0 || o[0] > 2 || o[1] < 0 || (o[0] < 2 && o[1] >= 40) {
+		return false
+	}
+	for _, a := range o[1:] {
+		if a < 0 || a >= 1<<31-1 {
+			return false
+		}
+	}
+	return o[0]*40+o[1] < 1<<31-1
+}
+
+func (g *c15Gen) collisions() []c15Col {
+	r := g.c.R
+	var out []c15Col
+	seen := map[string]bool{}
+	add := func(key string, o1 []int, v1 string, o2 []int, v2 string) {
+		if !c15ValidOID(o1) || !c15ValidOID(o2) || !utf8.ValidString(v1) || !utf8.ValidString(v2) {
+			return
+		}
+		if c15Dotted(o1) == c15Dotted(o2) && v1 == v2 {
+			return
+		}
+		id := c15Dotted(o1) + "\x00" + v1 + "\x00" + c15Dotted(o2) + "\x00" + v2
+		if seen[id] {
+			return
+		}
+		seen[id] = true
+		out = append(out, c15Col{key, c15A{o1, fitTag(r, v1), v1}, c15A{o2, fitTag(r, v2), v2}})
+	}
+	ext := func(o []int, more ...int) []int { return append(append([]int{}, o...), more...) }
+
+	bases := [][]int{
+		{2, 5, 4, 5}, {2, 5, 4, 3}, {2, 5, 4, 10}, {2, 5, 4, 4}, {2, 5, 4, 1}, {1, 3, 6, 1, 4, 1, 99999, 1},
+		{0, 9, 2342, 19200300, 100, 1, 25}, {1, 2, 840, 113549, 1, 9, 1}, {2, 5, 4, 9}, {1, 2, 3}, {2, 999, 1},
+	}
+	for i := 0; i < 6; i++ {
+		bases = append(bases, c15TableOID(g.table[r.Intn(len(g.table))]))
+	}
+	rests := []string{"123", "x", " West St", "", ".1", ",a", "+b", "#", " ", "\u00e9"}
+
+	// (1) dotted OID + value without a separator: leading digits of the value move onto the
+	//     last arc and back; a '.' and further arcs move out of the value into the OID
+	for _, o := range bases {
+		last := o[len(o)-1]
+		for _, d := range []string{"0", "7", "12", "00", "50"} {
+			if last == 0 {
+				continue
+			}
+			var arc int
+			fmt.Sscanf(fmt.Sprint(last)+d, "%d", &arc)
+			o2 := ext(o[:len(o)-1], arc)
+			for k := 0; k < 2; k++ {
+				rest := rests[r.Intn(len(rests))]
+				add("dotted+value", o, d+rest, o2, rest)
+			}
+		}
+		{
+			rest := rests[r.Intn(4)]
+			add("dotted+value", o, ".7"+rest, ext(o, 7), rest)
+			add("dotted+value", o, ".7.0.18"+rest, ext(o, 7, 0, 18), rest)
+			if len(o) >= 3 {
+				add("dotted+value", o[:len(o)-1], "."+fmt.Sprint(last)+rest, o, rest)
+			}
+		}
+	}
+	// the examples of the seeded change
+	add("dotted+value", []int{2, 5, 4, 5}, "0123", []int{2, 5, 4, 50}, "123")
+	add("dotted+value", []int{1, 3, 6, 1, 4, 1, 99999, 17}, " West St", []int{1, 3, 6, 1, 4, 1, 99999, 1}, "7 West St")
+
+	// (2) the OID's content octets (or one byte per arc) + the value's bytes: an ASCII byte of
+	//     the value is one more arc
+	for _, o := range bases {
+		for k := 0; k < 3; k++ {
+			b := []byte{'A', '1', ' ', 'x', 0x7f, 0x01, ','}[r.Intn(7)]
+			rest := rests[r.Intn(5)]
+			add("oidbytes+value", o, string(b)+rest, ext(o, int(b)), rest)
+		}
+		add("oidbytes+value", o, "AB", ext(o, 'A', 'B'), "")
+	}
+
+	// (3) short name + value, (4) value + short name: one display name a prefix / suffix of another
+	for _, t1 := range g.table {
+		for _, t2 := range g.table {
+			n1, n2 := t1[1], t2[1]
+			if len(n1) >= len(n2) || len(out) > 4000 {
+				continue
+			}
+			o1, o2 := c15TableOID(t1), c15TableOID(t2)
+			if strings.HasPrefix(n2, n1) {
+				rest := rests[r.Intn(4)]
+				add("name+value", o1, n2[len(n1):]+rest, o2, rest)
+				add("name+value", o1, n2[len(n1):]+"=x", o2, "=x")
+			}
+			if strings.HasSuffix(n2, n1) {
+				v := []string{"x", "", "a ", "#"}[r.Intn(4)]
+				add("value+name", o2, v, o1, v+n2[:len(n2)-len(n1)])
+			}
+		}
+	}
+	// (4) value + dotted OID: leading arcs move from the OID to the end of the value
+	for _, o := range bases {
+		for _, p := range [][]int{{2, 1}, {1}, {2, 5, 4}, {0, 9}} {
+			if v := []string{"x", "", "a ", "1"}[r.Intn(4)]; r.Intn(2) == 0 {
+				add("value+dotted", ext(p, o...), v, o, v+c15Dotted(p)+".")
+			}
+		}
+	}
+
+	// (5..8) keys that forget part of the pair: the type, the value, the case, the outer spaces,
+	//     everything after n bytes / after a NUL, everything but the length / the byte sum
+	cn, ou, unnamed := []int{2, 5, 4, 3}, []int{2, 5, 4, 11}, []int{1, 2, 3, 4}
+	for _, v := range []string{"x", "Acme, Inc.", "", " ", "#a", "\u00e9+"} {
+		add("value-only", cn, v, ou, v)
+		add("value-only", cn, v, unnamed, v)
+		add("value-only", unnamed, v, []int{1, 2, 3, 5}, v)
+	}
+	for _, o := range [][]int{cn, unnamed} {
+		add("type-only", o, "a", o, "b")
+		add("type-only", o, "a,b", o, "a+b")
+		for _, p := range [][2]string{{"Abc Def", "abc def"}, {"ABC", "abc"}, {"\u00c9cole", "\u00e9cole"}, {"K", "\u212a"}, {"stra\u00dfe", "STRASSE"}, {"a,B", "A,b"}, {"\u017f", "s"}} {
+			add("case", o, p[0], o, p[1])
+		}
+		for _, p := range [][2]string{{" a", "a"}, {"a ", "a"}, {" a ", "a"}, {"  a", " a"}, {"\ta", "a"}, {"a\n", "a"}, {"\u00a0a", "a"}, {" ", ""}, {"  ", " "}, {" #a", "#a"}, {"a\u3000", "a"}} {
+			add("trim", o, p[0], o, p[1])
+		}
+		for _, n := range []int{1, 2, 4, 8, 15, 16, 32, 64, 128, 255, 256} {
+			p := strings.Repeat("k", n)
+			add("truncated", o, p+"x", o, p+"y")
+			add("truncated", o, p, o, p+"z")
+			add("truncated", o, p+" ", o, p)
+			if n >= 2 {
+				q := strings.Repeat("k", n-1)
+				add("truncated", o, q+"\u00e9", o, q+"\u00e8") // the cut falls inside a character
+				add("truncated", o, q+",x", o, q+",y")
+			}
+		}
+		add("truncated", o, "a\x00b", o, "a\x00c")
+		add("truncated", o, "a\x00", o, "a")
+		add("length-only", o, "ab", o, "cd")
+		add("length-only", o, "a,", o, "ab")
+		add("byte-sum", o, "ab", o, "ba")
+		add("byte-sum", o, "a ", o, " a")
+		add("byte-sum", o, "#a", o, "a#")
+		add("byte-sum", o, "ac", o, "bb")
+	}
+	add("type-only", cn, "", cn, " ")
+	return out
+}
+
+func (n c15N) pkix() pkix.RDNSequence {
+	out := make(pkix.RDNSequence, len(n))
+	for i, rdn := range n {
+		for _, a := range rdn {
+			out[i] = append(out[i], pkix.AttributeTypeAndValue{Type: asn1.ObjectIdentifier(a.oid), Value: a.s})
+		}
+	}
+	return out
+}
+
+func (g *c15Gen) emitRawN(tag string, n c15N) {
+	d := n.der()
+	obs := guard(func() Sx { return ObsOk(S(names.FromRawDN(d))) })
+	g.c.Emit("rawdn:"+tag, n.input(), obs)
+}
+
+// emitSeq: the names rendered one after the other in this process, through FromRDNSequence
+// (raw = false; items are rdns as in the dn op) or FromRawDN (raw = true; items as in rawdn)
+func (g *c15Gen) emitSeq(tag string, raw bool, ns []c15N) {
+	items := SL{}
+	kind := 0
+	if raw {
+		kind = 1
+	}
+	for _, n := range ns {
+		if raw {
+			items = append(items, n.input())
+		} else {
+			items = append(items, rdnsSx(n.pkix()))
+		}
+	}
+	obs := guard(func() Sx {
+		out := SL{}
+		for _, n := range ns {
+			if raw {
+				out = append(out, S(names.FromRawDN(n.der())))
+			} else {
+				out = append(out, S(names.FromRDNSequence(n.pkix())))
+			}
+		}
+		return ObsOk(out)
+	})
+	g.c.Emit("seq:"+tag, SL{I(kind), items}, obs)
+}
+
+// both orders of every pair and every name twice with another in between: the names, the same
+// backwards, and the first again
+func c15BothOrders(ns []c15N) []c15N {
+	out := append([]c15N{}, ns...)
+	for i := len(ns) - 1; i >= 0; i-- {
+		out = append(out, ns[i])
+	}
+	if len(ns) > 1 {
+		out = append(out, ns[1], ns[0])
+	}
+	return out
+}
+
+// one colliding pair in every placement.  [certs]: also as subject / issuer and as a chain.
+func (g *c15Gen) collisionCases(col c15Col, certs bool) {
+	r := g.c.R
+	tag := "col-" + col.key
+	a, b := col.a, col.b
+	A, B := c15N{{a}}, c15N{{b}}
+	filler := c15A{[]int{2, 5, 4, 6}, tagPrintable, "ZZ"}
+	// (i) one RDN, (ii) two RDNs of one name, both orders; with and without another RDN around
+	inOne := []c15N{{{a, b}}, {{b, a}}, {{a}, {b}}, {{b}, {a}}, {{filler}, {a}, {b}}, {{b}, {filler}, {a}}}
+	for _, n := range inOne {
+		if r.Bool() {
+			g.emitDN(tag, n.pkix())
+		} else {
+			g.emitRawN(tag, n)
+		}
+	}
+	// (iv) consecutive cases of dn and rawdn: a, b, a
+	for _, n := range []c15N{A, B, A} {
+		g.emitDN(tag, n.pkix())
+	}
+	for _, n := range []c15N{B, A, B} {
+		g.emitRawN(tag, n)
+	}
+	// the seq op: a b b a b a, through both entry points
+	g.emitSeq(tag, false, c15BothOrders([]c15N{A, B}))
+	g.emitSeq(tag, true, c15BothOrders([]c15N{B, A}))
+	g.emitSeq(tag, r.Bool(), c15BothOrders([]c15N{{{filler}, {a}}, {{filler}, {b}}, {{a, filler}}}))
+	if certs {
+		// (iii) subject and issuer of one certificate, both ways; a chain a <- b <- a
+		car := c15Carriers[r.Intn(len(c15Carriers))]
+		g.emitPair(tag, car, A, B)
+		g.emitPair(tag, car, B, A)
+		g.emitChain(tag, []string{"bundle", "jks"}[r.Intn(2)], []c15N{A, B, A, {{filler}, {b}}})
+	}
+}
+
+func (g *c15Gen) seqCases(specials []string, random int) {
+	r := g.c.R
+	rels := g.rels()
+	// the fixed bases of the related pairs with every relation: base, relative, base, relative
+	for _, b := range c15PairBases() {
+		for _, rel := range rels {
+			if m, ok := rel.f(r, b); ok {
+				g.emitSeq("rel-"+rel.name, r.Bool(), []c15N{b, m, b, m})
+			}
+		}
+	}
+	// seeded names, each followed by relatives of itself or of an earlier one; then backwards
+	for i := 0; i < random; i++ {
+		ns := []c15N{g.pairBase(r, specials)}
+		for k := 1 + r.Intn(4); k > 0; k-- {
+			prev := ns[r.Intn(len(ns))]
+			if m, ok := rels[r.Intn(len(rels))].f(r, prev); ok {
+				ns = append(ns, m)
+			} else {
+				ns = append(ns, g.pairBase(r, specials))
+			}
+		}
+		g.emitSeq("random", r.Bool(), c15BothOrders(ns))
+	}
+}
+
 func genC15(c *Ctx) {
 	g := &c15Gen{c: c, table: names.VerifX500AttrTypes()}
 	r := c.R
@@ -1725,6 +2017,10 @@ func genC15(c *Ctx) {
 		g.emitPair("corpus", "der", c15N{c15Ats(cn, tagPrintable, "x")}, c15N{c15Ats(cn, tagUTF8, "x")})
 		g.emitPair("corpus", "der", acme, acme)
 	}
+	// round 4 (seeded change): a process-wide cache of attribute texts keyed by dotted OID +
+	// value without a separator showed the attribute rendered second as the first
+	g.collisionCases(c15Col{"corpus", c15A{[]int{2, 5, 4, 5}, tagPrintable, "0123"}, c15A{[]int{2, 5, 4, 50}, tagPrintable, "123"}}, true)
+	g.collisionCases(c15Col{"corpus", c15A{[]int{1, 3, 6, 1, 4, 1, 99999, 17}, tagUTF8, " West St"}, c15A{[]int{1, 3, 6, 1, 4, 1, 99999, 1}, tagUTF8, "7 West St"}}, true)
 	// positional cases of the escaping
 	for _, s := range []string{" ", "#", "  ", " #", "# ", "a ", " a", "aé", "é ", " é", "a#", "a=b", "=", "\\", "a\\ ", "\xff ", " \xff", "\xc3", "a\xe9"} {
 		g.emitEscape("corpus", s)
@@ -1871,5 +2167,10 @@ func genC15(c *Ctx) {
 	// ---- cert / chain: related issuer and subject (see pairCases, chainCases) ----
 	g.pairCases(specials, 500*scale)
 	g.chainCases(specials, 120*scale)
+	// ---- state between renderings: colliding attributes in every placement; sequences ----
+	for i, col := range g.collisions() {
+		g.collisionCases(col, c.Thorough() || i%3 == int(c.Seed%3))
+	}
+	g.seqCases(specials, 150*scale)
 	os.RemoveAll(filepath.Join(c.Tmp, "c15"))
 }
